@@ -221,6 +221,7 @@ def emit(fam):
     w("impl Default for OneV { fn default() -> Self { OneV::Only } }")
     w("impl Spec for OneV { fn spec_enc<const N: usize>(&self, o: &mut Buf<N>) { o.put(5) } fn spec_dec(c: &mut Cur) -> Option<Self> { if c.byte()? == 5 { Some(OneV::Only) } else { None } } fn same(&self, _o: &Self) -> bool { true } }")
     w("impl Sym for OneV { fn sym(_c: usize) -> Self { OneV::Only } }")
+    w("impl Elem for OneV {}")
     w("/// facts about a derived value that the generic harness bodies need")
     w("pub trait DerivedInfo { fn in_skipped_variant(&self) -> bool; fn skipped_fields_default(&self) -> bool; }")
     w("")
